@@ -14,26 +14,23 @@ Proof.
   - intros [= <- _]. auto.
   - intros H. right. auto.
 Qed.
-Lemma tagged_phase sp l t r : tagged sp l = Some (t, r) -> In (t_ph t) (map snd sp).
+Lemma tagged_phase sp l t r : In (t, r) (tagged sp l) -> In (t_ph t) (map snd sp).
 Proof.
-  unfold tagged. destruct (match_spelling sp (skip_sep l)) as [[p r0]|] eqn:E; [|discriminate].
-  destruct (opt_sep_num r0) as [n r']. intros [= <- _]. simpl. eapply match_spelling_phase; eauto.
+  unfold tagged. destruct (match_spelling sp (skip_sep l)) as [[p r0]|] eqn:E; [|intros []].
+  intros H. apply in_map_iff in H. destruct H as [[n r'] [H _]]. injection H as <- _. simpl.
+  eapply match_spelling_phase; eauto.
 Qed.
-Lemma post_group_phase l t r : post_group l = Some (t, r) -> t_ph t = PPost.
+Lemma post_group_phase l t r : In (t, r) (post_group l) -> t_ph t = PPost.
 Proof.
-  unfold post_group. destruct l as [|c l0]; [discriminate|].
-  destruct ((code c =? 45) && match l0 with d :: _ => is_digit d | [] => false end).
-  - destruct (span is_digit l0). intros [= <- _]. reflexivity.
-  - intros H. apply tagged_phase in H. simpl in H. intuition congruence.
+  unfold post_group. destruct l as [|c l0]; [intros []|].
+  intros H. apply in_app_or in H. destruct H as [H|H].
+  - destruct ((code c =? 45) && match l0 with d :: _ => is_digit d | [] => false end); [|destruct H].
+    destruct (span is_digit l0). destruct H as [H|[]]. injection H as <- _. reflexivity.
+  - apply tagged_phase in H. simpl in H. intuition congruence.
 Qed.
 
 Lemma span_first_true p c l : p c = true -> fst (span p (c :: l)) <> [].
 Proof. intros H. simpl. rewrite H. destruct (span p l). simpl. discriminate. Qed.
-Lemma span_all p l : forallb p (fst (span p l)) = true.
-Proof.
-  induction l as [|c l IH]; simpl; [reflexivity|].
-  destruct (p c) eqn:E; [|reflexivity]. destruct (span p l) as [a b]. simpl in *. rewrite E, IH. reflexivity.
-Qed.
 Lemma local_tail_nonempty f : forall l, Forall (fun s => s <> []) (fst (local_tail f l)).
 Proof.
   induction f as [|f IH]; intros l; simpl; [constructor|].
@@ -55,49 +52,77 @@ Qed.
 Lemma forallb_map_wf segs : Forall (fun s : chars => s <> []) segs -> forallb wf_lseg (map mk_lseg segs) = true.
 Proof. induction 1; simpl; [reflexivity|]. rewrite mk_lseg_wf by assumption. assumption. Qed.
 
-Lemma opt_group_pre r p r' : opt_group (tagged pre_spellings) r = (p, r') ->
-  match p with Some t => match t_ph t with PA | PB | PRC => true | _ => false end | None => true end = true.
+Definition wf_pre (p : option tag) :=
+  match p with Some t => match t_ph t with PA | PB | PRC => true | _ => false end | None => true end.
+Definition wf_post (p : option tag) := match p with Some t => phase_eqb (t_ph t) PPost | None => true end.
+Definition wf_dev (p : option tag) := match p with Some t => phase_eqb (t_ph t) PDev | None => true end.
+Definition wf_loc (lo : option (list lseg)) :=
+  match lo with Some [] => false | Some l => forallb wf_lseg l | None => true end.
+
+Lemma opt_group_in alts r p r' : In (p, r') (opt_group alts r) ->
+  (exists t, p = Some t /\ In (t, r') alts) \/ p = None.
 Proof.
-  unfold opt_group. destruct (tagged pre_spellings r) as [[t r0]|] eqn:E; intros [= <- _]; [|reflexivity].
-  apply tagged_phase in E. simpl in E.
-  repeat (destruct E as [E|E]; [rewrite <- E; reflexivity|]). destruct E.
+  unfold opt_group. intros H. apply in_app_or in H. destruct H as [H|[H|[]]].
+  - apply in_map_iff in H. destruct H as [[t r0] [H Hin]]. injection H as <- <-. left; eauto.
+  - injection H as <- _. right; reflexivity.
 Qed.
-Lemma opt_group_post r p r' : opt_group post_group r = (p, r') ->
-  match p with Some t => phase_eqb (t_ph t) PPost | None => true end = true.
+Lemma opt_group_pre r p r' : In (p, r') (opt_group (tagged pre_spellings r) r) -> wf_pre p = true.
 Proof.
-  unfold opt_group. destruct (post_group r) as [[t r0]|] eqn:E; intros [= <- _]; [|reflexivity].
-  apply post_group_phase in E. rewrite E. reflexivity.
+  intros H. apply opt_group_in in H. destruct H as [[t [-> H]]| ->]; [|reflexivity].
+  apply tagged_phase in H. simpl in H. unfold wf_pre.
+  repeat (destruct H as [H|H]; [rewrite <- H; reflexivity|]). destruct H.
 Qed.
-Lemma opt_group_dev r p r' : opt_group (tagged dev_spellings) r = (p, r') ->
-  match p with Some t => phase_eqb (t_ph t) PDev | None => true end = true.
+Lemma opt_group_post r p r' : In (p, r') (opt_group (post_group r) r) -> wf_post p = true.
 Proof.
-  unfold opt_group. destruct (tagged dev_spellings r) as [[t r0]|] eqn:E; intros [= <- _]; [|reflexivity].
-  apply tagged_phase in E. simpl in E. destruct E as [E|[]]. rewrite <- E. reflexivity.
+  intros H. apply opt_group_in in H. destruct H as [[t [-> H]]| ->]; [|reflexivity].
+  apply post_group_phase in H. unfold wf_post. rewrite H. reflexivity.
 Qed.
-Lemma local_group_wf r lo r' : local_group r = Some (lo, r') ->
-  match lo with Some [] => false | Some l => forallb wf_lseg l | None => true end = true.
+Lemma opt_group_dev r p r' : In (p, r') (opt_group (tagged dev_spellings r) r) -> wf_dev p = true.
 Proof.
-  unfold local_group. destruct r as [|c r0]; [intros [= <- _]; reflexivity|].
-  destruct (code c =? 43); [|intros [= <- _]; reflexivity].
-  destruct (span is_alnum r0) as [seg r6] eqn:Es. destruct seg as [|a seg]; [discriminate|].
+  intros H. apply opt_group_in in H. destruct H as [[t [-> H]]| ->]; [|reflexivity].
+  apply tagged_phase in H. simpl in H. destruct H as [H|[]]. unfold wf_dev. rewrite <- H. reflexivity.
+Qed.
+Lemma local_group_wf r lo r' : In (lo, r') (local_group r) -> wf_loc lo = true.
+Proof.
+  unfold local_group. destruct r as [|c r0]; [intros [[= <- _]|[]]; reflexivity|].
+  destruct (code c =? 43); [|intros [[= <- _]|[]]; reflexivity].
+  destruct (span is_alnum r0) as [seg r6] eqn:Es. destruct seg as [|a seg]; [intros [[= <- _]|[]]; reflexivity|].
   pose proof (local_tail_nonempty (Datatypes.length r6) r6) as Hne.
   destruct (local_tail (Datatypes.length r6) r6) as [segs r7]. simpl in Hne.
-  intros [= <- _]. cbn [map forallb]. rewrite mk_lseg_wf by discriminate. apply forallb_map_wf. exact Hne.
+  intros [[= <- _]|[[= <- _]|[]]]; [|reflexivity].
+  unfold wf_loc. cbn [map forallb]. rewrite mk_lseg_wf by discriminate. apply forallb_map_wf. exact Hne.
+Qed.
+
+Definition wf_cand (c : cand) : bool :=
+  wf_pre (c_pre c) && wf_post (c_post c) && wf_dev (c_dev c) && wf_loc (c_local c)
+  && match c_rel c with [] => false | _ => true end.
+Lemma match_version_wf l c : In c (match_version l) -> wf_cand c = true.
+Proof.
+  unfold match_version.
+  destruct (span is_digit (strip_v l)) as [ds r]. destruct ds as [|d0 ds]; [intros []|].
+  destruct (epoch_split (d0 :: ds) r) as [[e ds1] r1]. destruct ds1 as [|d1 ds1]; [intros []|].
+  destruct (release_tail (Datatypes.length r1) r1) as [more r2].
+  intros H. apply in_flat_map in H. destruct H as [[p r3] [Hp H]].
+  apply in_flat_map in H. destruct H as [[po r4] [Hpo H]].
+  apply in_flat_map in H. destruct H as [[d r5] [Hd H]].
+  apply in_map_iff in H. destruct H as [[lo r6] [<- Hlo]].
+  unfold wf_cand; cbn [c_pre c_post c_dev c_local c_rel].
+  rewrite (opt_group_pre _ _ _ Hp), (opt_group_post _ _ _ Hpo), (opt_group_dev _ _ _ Hd),
+    (local_group_wf _ _ _ Hlo). reflexivity.
+Qed.
+Lemma wf_of_cand c txt : wf_cand c = true -> wf (version_of_cand c txt) = true.
+Proof.
+  unfold wf_cand, wf, wf_tags, wf_local, version_of_cand, wf_pre, wf_post, wf_dev, wf_loc;
+    cbn [pre post dev local rel].
+  intros H. rewrite !andb_true_iff in H. destruct H as [[[[Hp Hpo] Hd] Hl] Hr].
+  rewrite Hp, Hpo, Hd, Hr. cbn [andb].
+  destruct (c_local c) as [[|x l0]|]; try discriminate; try reflexivity. rewrite Hl. reflexivity.
 Qed.
 
 Theorem parse_wf s v : parse s = Some v -> wf v = true.
 Proof.
   unfold parse, parse_chars.
-  destruct (span is_digit _) as [ds r]. destruct ds as [|d0 ds]; [discriminate|].
-  destruct (epoch_split (d0 :: ds) r) as [[e ds1] r1]. destruct ds1 as [|d1 ds1]; [discriminate|].
-  destruct (release_tail (Datatypes.length r1) r1) as [more r2].
-  destruct (opt_group (tagged pre_spellings) r2) as [p r3] eqn:Ep.
-  destruct (opt_group post_group r3) as [po r4] eqn:Epo.
-  destruct (opt_group (tagged dev_spellings) r4) as [d r5] eqn:Ed.
-  destruct (local_group r5) as [[lo r6]|] eqn:El; [|discriminate].
-  destruct (all_space r6); [|discriminate].
-  intros [= <-]. unfold wf, wf_tags, wf_local; cbn [pre post dev local rel].
-  rewrite (opt_group_pre _ _ _ Ep), (opt_group_post _ _ _ Epo), (opt_group_dev _ _ _ Ed). cbn [andb].
-  pose proof (local_group_wf _ _ _ El) as HL.
-  destruct lo as [[|x l]|]; try discriminate; try reflexivity. rewrite HL. reflexivity.
+  destruct (find _ _) as [c|] eqn:E; [|discriminate].
+  intros [= <-]. apply find_some in E. destruct E as [E _].
+  apply wf_of_cand. eapply match_version_wf; eauto.
 Qed.
